@@ -363,6 +363,25 @@ def cached_shard(shard):
     return p
 
 
+def long_shard(shard):
+    """Runs of hundreds / thousands of cycles (long straight-line code, counted loops with stalls, flushes, stores, calls, prints)."""
+    from vf.checks import c07
+    seed, k, ci = shard
+    name, prog, _n = c07.long_programs(seed)[k]
+    caches = None if ci is None else CACHED[ci]
+    pm = {4 * i: x for i, x in enumerate(prog)}
+    p = Partial()
+    one, bad = compare_modes(pm, c07.LONG_REGS, c07.LONG_WORDS, 6000, caches=caches)
+    p.evaluations += 1
+    p.nontrivial += 1
+    if one.steps > 256:
+        p.counters["run-longer-than-256-instructions"] += 1
+    for fl, d in bad:
+        p.violation(dict(oracle="five-vs-single", field=fl, long="run"), dict(case_of(pm, c07.LONG_REGS, c07.LONG_WORDS, 6000, 0, caches), sig=dict(long="run")),
+                    f"{name} [{rv.prog_text(prog[:8])}{' ...' if len(prog) > 8 else ''}] caches {caches}: {d}", size=(len(prog), k))
+    return p
+
+
 def program_shards(seed, big, L, nstates, steps):
     n = len(alpha.hazard_alphabet(seed, big))
     if L >= 4:
@@ -420,4 +439,9 @@ def run(ctx):
         ctx.space(f"cached-programs-len{L}", part, t0, length=L, cache_configurations=len(CACHED),
                   note="five-stage vs single-cycle, both with the same data / instruction caches")
     ctx.require("mode-equivalence-with-caches")
+    from vf.checks import c07
+    t0 = time.time()
+    part = pmap(long_shard, [(seed, k, ci) for k in range(len(c07.long_programs(seed))) for ci in (None, 2, 5)])
+    ctx.space("long-runs", part, t0, programs=[n for n, _p, _k in c07.long_programs(seed)], cache_configurations=["none", "#2", "#5"])
+    ctx.require("run-longer-than-256-instructions")
     ctx.extra["bounds"] = dict(program_length_H18=4 if ctx.quick else 5, program_length_H30=3 if ctx.quick else 4, step_horizon=steps)
